@@ -106,6 +106,9 @@ class RecBoolector:
 _installed = False
 
 
+ON_SOLVE = []     # callbacks run when Randomizer.randomize is entered (the model is fully elaborated then)
+
+
 def install():
     """Replace the solver class, name solver variables after their fields, wrap Randomizer.randomize."""
     global _installed
@@ -120,13 +123,21 @@ def install():
         r = orig_build(self, btor)
         v = self.var
         if had is None and isinstance(v, Node) and v.tree[0] == "var" and str(v.tree[1]).startswith("?"):
-            v.tree[1] = self.fullname if hasattr(self, "fullname") else self.name
+            nm = self.fullname if hasattr(self, "fullname") else self.name
+            # a second field object of the same name in one solver instance (an element object that is no longer part of
+            # its list but still reachable from a cached expression) must not shadow the first in the records
+            taken = [o for o in getattr(btor, "vars", []) if o is not v and o.tree[1] == nm or str(o.tree[1]).startswith(nm + "#")]
+            if taken:
+                nm = "%s#%d" % (nm, len(taken) + 1)
+            v.tree[1] = nm
         return r
     FieldScalarModel.build = build
 
     orig_rand = R.Randomizer.randomize
 
     def wrap(self, ri, bound_m):
+        for cb in ON_SOLVE:
+            cb()
         for i, rs in enumerate(ri.randsets()):
             EV.append(("randset", i, [f.fullname for f in rs.all_fields()], len(rs.constraints()),
                        len(rs.soft_constraints()),
